@@ -93,6 +93,10 @@ func (w *Writer) WriteStreamWithOptions(bom *sbom.Document, wr io.WriteCloser, o
 		return fmt.Errorf("unable to write sbom to stream, SBOM is nil")
 	}
 
+	if o == nil {
+		return fmt.Errorf("unable to write sbom to stream, options cannot be nil")
+	}
+
 	format := o.Format
 	if o.Format == "" {
 		format = w.Options.Format
